@@ -1391,6 +1391,28 @@ func famAttest(r *Rng, o *Out, tier string) {
 				}
 			}
 		}
+		// 10. a LEGACY discharge (two-field nonce: no proof flag, none signed) that the trusted party issued for the
+		// ticket; the bearer appends a forged identity by hand, finalises the tail himself (the finalisation key is
+		// public) and writes the token as a map naming the Nonce field twice - a three-field nonce claiming "proof"
+		// and the genuine one, in either order. A token minted as a non-proof never yields an attestation.
+		{
+			legacy, err := macaroon.Decode(oldFormatToken(it.tp.rn, it.tp.ticket, r.Bytes(16), tpLoc))
+			if err == nil {
+				forged := auth.FlyioUserID(uint64(uid) + 500000)
+				fe, _ := encOne(&forged)
+				legacy.UnsafeCaveats.Caveats = append(legacy.UnsafeCaveats.Caveats, &forged)
+				legacy.Tail = finalizeSig(hmacSum(legacy.Tail, fe))
+				if tree, rest, perr := mpParse(mustEnc(legacy)); perr == nil && len(rest) == 0 && tree.Kind == mpArr && len(tree.Kids) == 4 && len(tree.Kids[0].Kids) >= 2 {
+					nt := tree.Kids[0]
+					claim := &mpNode{Kind: mpArr, Kids: []*mpNode{nt.Kids[0], nt.Kids[1], {Kind: mpBool, B: true}}}
+					for oi, order := range [][2]*mpNode{{claim, nt}, {nt, claim}} {
+						tokm := &mpNode{Kind: mpMap, Kids: []*mpNode{mpStrNode("Nonce"), order[0], mpStrNode("Nonce"), order[1],
+							mpStrNode("Location"), tree.Kids[1], mpStrNode("UnsafeCaveats"), tree.Kids[2], mpStrNode("Tail"), tree.Kids[3]}}
+						cases = append(cases, cas{fmt.Sprintf("legacy.dupnonce.order%d", oi), final, [][]byte{mpEnc(tokm)}, false, never})
+					}
+				}
+			}
+		}
 		for _, c := range cases {
 			tms := []string{"nil", "empty", "wrongloc", "wrongkey", "several", "right", "shortkey"}
 			for _, tm := range tms {
@@ -1591,9 +1613,27 @@ func famProof(r *Rng, o *Out, tier string) {
 		o.emit(fmt.Sprintf("(proof.run %s %s %s %s %s (%s))", hx(ka), hs(loc), hx(c3.Ticket), hx(dm.Nonce.Rnd), hx(rn), strings.Join(ops, " ")), strings.Join(outs, " "))
 		// hand-built extensions from the published form
 		pub := mustEnc(dm)
-		for k := 0; k < 4; k++ {
+		for k := 0; k < 9; k++ {
 			dd, _ := macaroon.Decode(pub)
-			c := r.plainCav(0)
+			// what is appended: a plain caveat, or one of the kinds verification treats specially (an attestation,
+			// a wrapper around plain caveats or around an attestation, a binding, a third-party caveat)
+			var c macaroon.Caveat = r.plainCav(0)
+			switch k {
+			case 4:
+				u := auth.FlyioUserID(r.id())
+				c = &u
+			case 5:
+				c = &resset.IfPresent{Ifs: macaroon.NewCaveatSet(r.plainCav(0)), Else: resset.ActionAll}
+			case 6:
+				u := auth.FlyioUserID(r.id())
+				c = &resset.IfPresent{Ifs: macaroon.NewCaveatSet(&u), Else: resset.ActionAll}
+			case 7:
+				b := macaroon.BindToParentToken(r.Bytes(pick(r, []int{0, 16})))
+				c = &b
+			case 8:
+				c = &macaroon.Caveat3P{Location: "https://deeper.example", VerifierKey: r.Bytes(72), Ticket: r.Bytes(40)}
+			}
+			o.count(fmt.Sprintf("handext.%T", c))
 			ce, _ := encOne(c)
 			dd.UnsafeCaveats.Caveats = append(dd.UnsafeCaveats.Caveats, c)
 			t := hmacSum(dd.Tail, ce)
